@@ -12,6 +12,7 @@ import struct
 import tempfile
 from decimal import Decimal, getcontext
 
+from ..core import vary_buf  # noqa
 from ..core import Tally  # noqa: F401
 from .. import tlc
 
@@ -638,12 +639,12 @@ class Rec:
             obj.close()
             self.obj = P.BloomFilterOnDisk(self.path, hash_function=hf)
         elif kind == "rbf":
-            self.obj = P.RotatingBloomFilter.frombytes(bytes(obj), max_queue_size=self.tr["qmax"], hash_function=hf)
+            self.obj = P.RotatingBloomFilter.frombytes(vary_buf(bytes(obj)), max_queue_size=self.tr["qmax"], hash_function=hf)
         elif kind in ("cko", "ccko"):
             if self.er:
-                g = type(obj).frombytes(bytes(obj), error_rate=self.er)
+                g = type(obj).frombytes(vary_buf(bytes(obj)) if kind == "ccko" else bytes(obj), error_rate=self.er)
             else:
-                g = type(obj).frombytes(bytes(obj))
+                g = type(obj).frombytes(vary_buf(bytes(obj)) if kind == "ccko" else bytes(obj))
                 if not self.dflt:
                     g.fingerprint_size = self.fs
             g.auto_expand = obj.auto_expand
@@ -652,7 +653,7 @@ class Rec:
             ch = self.rnd.choice(["bytes", "file"] + (["hex"] if kind in ("bloom", "cbloom") else []))
             cls = type(obj)
             if ch == "bytes":
-                self.obj = cls.frombytes(bytes(obj), hash_function=hf)
+                self.obj = cls.frombytes(vary_buf(bytes(obj)), hash_function=hf)
             elif ch == "hex":
                 self.obj = cls(hex_string=obj.export_hex(), hash_function=hf)
             else:
